@@ -154,6 +154,50 @@ def _keepdims(result, a, axis):
     return r.reshape(shape)
 
 
+def dtype_target_kind(dtype):
+    """'f' / 'c' / 'i' / 'b' for a dtype argument the analysis understands, None for "no conversion asked for" """
+    if dtype is None:
+        return None
+    if isinstance(dtype, DType):
+        return dtype.kind
+    if isinstance(dtype, str):
+        return {'float': 'f', 'float64': 'f', 'd': 'f', 'f8': 'f', 'complex': 'c', 'complex128': 'c', 'D': 'c', 'c16': 'c',
+                'int': 'i', 'int64': 'i', 'i8': 'i', 'bool': 'b'}.get(dtype.lstrip('<>=|'))
+    if dtype is float:
+        return 'f'
+    if dtype is complex:
+        return 'c'
+    if dtype is int:
+        return 'i'
+    nm = getattr(dtype, '__name__', None)
+    return {'float': 'f', 'float64': 'f', 'float_': 'f', 'double': 'f', 'complex': 'c', 'complex128': 'c', 'complex_': 'c',
+            'int': 'i', 'int64': 'i', 'int_': 'i', 'intp': 'i', 'bool': 'b', 'bool_': 'b'}.get(nm)
+
+
+def cast_to_dtype(models, a, dtype):
+    """What numpy does when an array is converted to `dtype`: a complex value converted to a real dtype loses its imaginary
+    part (numpy only warns), everything else the analysis tracks is unchanged.  a: Arr; returns a (new) Arr."""
+    kind = dtype_target_kind(dtype)
+    if kind != 'f' or not isinstance(a, Arr) or not a.size:
+        return a
+    items = a.items()
+    out, changed = [], False
+    for v in items:
+        k = ndarr.elem_dtype_kind(v)
+        if k is None and hasattr(v, 'kind_'):
+            k = v.kind_()
+        if k in ('c', 'z'):
+            out.append(models.scalar_fn('real', v))
+            changed = True
+        else:
+            out.append(v)
+    if not changed:
+        return a
+    r = Arr(a.shape, out, kind='f')
+    r.memrank = a.mem_rank()
+    return r
+
+
 def _only(kw, ignorable, fname):
     """keywords of a numpy call that a summary does not model end the run (never silently dropped); `ignorable` ones do not
     change what the analysis tracks (memory order, dtype of exact values, sort algorithm, ..)"""
@@ -658,6 +702,8 @@ class Models(object):
     def np_asarray(self, x, dtype=None, **kw):
         _only(kw, ('order', 'subok', 'like', 'copy'), 'np.asarray')
         from .absint import Obj
+        if dtype_target_kind(dtype) == 'f':
+            return cast_to_dtype(self, self.np_asarray(x, **kw), dtype)
         if isinstance(x, Arr):
             return x
         if isinstance(x, Obj):
@@ -684,7 +730,7 @@ class Models(object):
             a = a.copy() if a is x else a
         if isinstance(ndmin, int) and a.ndim < ndmin:
             a = a.reshape((1,) * (ndmin - a.ndim) + tuple(a.shape))
-        return a
+        return cast_to_dtype(self, a, dtype)
 
     def np_copy(self, x):
         return asarr(x).copy()
